@@ -182,9 +182,7 @@ def install_cli(reg):
 TERM_READERS = ("_read_byte", "_read_bytes", "_read_number", "_read_uint32", "_read_uint64", "read")
 # loops whose termination argument is outside the rules of pyvc/term.py: reported as NOT decided (never counted as proved)
 TERM_UNPROVEN = {
-    ("doc_extractor.py", "_DocReader._extract_png_images_from_bytes", 0),   # `while True` driven by bytes.find(): variant len(data) - offset
     ("pdf_extractor.py", "_TableExtractor._extract", 0),                      # 125-line line-classifier: more than 4000 paths per iteration
-    ("pdf_extractor.py", "_TableExtractor._normalize_values", 0),             # list shrinks by `del merged[k]` inside a for/else shape
 }
 
 
@@ -203,15 +201,18 @@ def _make_term(rel):
     def run(repo, tier):
         from pyvc import term
         obls, listed = term.termination_obligations("C01", repo, [rel], readers=TERM_READERS, unproven_ok=TERM_UNPROVEN)
+        obls += term.for_loop_obligations("C01", repo, [rel])
         return {"obligations": obls, "not_decided": listed}
     run.__name__ = f"termination[{rel.split('/')[-1]}]"
     return run
 
 
 EXTRA = [_make_term(f) for f in _term_files()]
-BOUNDED = ["termination NOT decided for: doc_extractor._extract_png_images_from_bytes while-0, pdf_extractor._TableExtractor._extract while-0, "
-           "pdf_extractor._TableExtractor._normalize_values while-0 (outside the variant rules of pyvc/term.py); `for` loops terminate when their "
-           "iterable is finite (ranges / lists / bytes: yes; own generators reduce to their loops); recursion over finite trees (TREE-FINITE) not discharged here"]
+BOUNDED = ["termination NOT decided for: pdf_extractor._TableExtractor._extract while-0 (125-line line classifier, more than 4000 paths per iteration; "
+           "its index advances by `idx += 1` or to the `next_idx` returned by _extract_word_date_header, which is not under contract); `for` loops: "
+           "decreases#for-loops-finite shows per file that no loop iterates an infinite constructor or grows its own iterable, finiteness of third-party "
+           "iterables (ElementTree, zipfile, xlrd, olefile, pypdf) is assumed; recursion: CPython bounds the depth (RecursionError is an Exception subclass, "
+           "which the exceptional-postcondition obligations already admit at every call), structural descent over finite trees (TREE-FINITE) is not discharged"]
 
 EXECUTOR_KW = {}
 for _rel, _fn in registered_extractors():
